@@ -396,8 +396,8 @@ class source_position:
 @spec
 def comment_content(c0):
     """comment text (already trimmed) without block comment markers: `/* noqa: disable=all */` is a directive"""
-    c1 = rtrim(c0[0:len(c0) - 2]) if (len(c0) >= 2 and c0[len(c0) - 2:] == "*/") else c0
-    return ltrim(c1[2:]) if (len(c1) >= 2 and c1[0:2] == "/*") else c1
+    c1 = rtrim(c0[:-2]) if c0.endswith("*/") else c0
+    return ltrim(c1[2:]) if c1.startswith("/*") else c1
 
 
 @spec
@@ -414,7 +414,7 @@ def parsed_as(result, text, line_no, line_pos, m):
     c3 = ((d.action is None) == (not has_action(t)) and (d.action == "enable") == (has_action(t) and action_text(t) == "enable")
           and (d.action == "disable") == (has_action(t) and action_text(t) == "disable")) if isd else True
     c4 = ((d.rules is None) == all_rules(t)) if isd else True
-    c5 = (set(some_list(d.rules)) == rules_spec(m, t)) if (isd and not all_rules(t) and d.rules is not None) else True
+    c5 = (list(some_list(d.rules)) == sorted(rules_spec(m, t))) if (isd and not all_rules(t) and d.rules is not None) else True
     return c0 and c1 and c2 and c3 and c4 and c5
 
 
@@ -429,6 +429,101 @@ class extract_ignore_from_comment:
     def ensures(comment, reference_map, result):
         return parsed_as(result, comment_content(trim(seg_text(comment))), pm_line(comment.pos_marker), pm_pos(comment.pos_marker),
                          reference_map)
+
+
+
+# ================================================================== all comments of a file -> mask  (from_tree)
+BaseSegment = ref_class("sqlfluff.core.parser.segments.base:BaseSegment")
+
+
+@spec(uninterpreted=True)
+def comments_of(tree: BaseSegment) -> TList(RawSegment):
+    """the comment segments of the parse tree, in file order (BaseSegment.recursive_crawl is a pre-order walk)"""
+    return list(tree.recursive_crawl("comment"))
+
+
+@spec(uninterpreted=True)
+def is_sql_comment(c: RawSegment) -> BOOL:
+    """an inline (`-- ...`, `# ...`) or block (`/* ... */`) comment"""
+    return c.is_type("inline_comment", "block_comment")
+
+
+@external("sqlfluff.core.parser.segments.base:BaseSegment.recursive_crawl", PROP)
+class recursive_crawl:
+    types = {"self": BaseSegment, "seg_type": StrN}
+    ret = TList(RawSegment)
+    functional = True
+
+    def requires(self, seg_type):
+        return seg_type == "comment"
+
+    def ensures(self, seg_type, result):
+        return result == comments_of(self)
+
+
+@external("sqlfluff.core.parser.segments.base:BaseSegment.is_type", PROP)
+class is_type:
+    types = {"self": RawSegment, "t1": StrN, "t2": StrN}
+    ret = BOOL
+    functional = True
+
+    def requires(self, t1, t2):
+        return t1 == "inline_comment" and t2 == "block_comment"
+
+    def ensures(self, t1, t2, result):
+        return result == is_sql_comment(self)
+
+
+@external("sqlfluff.core.rules.noqa:IgnoreMask.__init__", PROP)
+class new_mask:
+    types = {"self": IgnoreMask, "ignores": TList(NoQaDirective)}
+
+    def ensures(self, ignores):
+        return self._ignore_list == ignores
+
+
+@spec
+def seg_kind(c):
+    """what the comment segment c is: 0 no directive, 1 a noqa directive, 2 a malformed one"""
+    return kind_spec(directive_text(comment_content(trim(seg_text(c))))) if is_sql_comment(c) else 0
+
+
+@spec(recursive=True)
+def seg_count(tree: BaseSegment, k: INT, n: INT) -> INT:
+    """number of comments of kind k among the first n comments of the tree"""
+    return 0 if n <= 0 else seg_count(tree, k, n - 1) + (1 if seg_kind(comments_of(tree)[n - 1]) == k else 0)
+
+
+@spec
+def seg_directive(d, c, m):
+    """d is the directive that comment segment c (of kind 1) stands for, on c's source line"""
+    return parsed_as(d, comment_content(trim(seg_text(c))), pm_line(c.pos_marker), pm_pos(c.pos_marker), m)
+
+
+@spec
+def tree_mask(ds, es, tree, m, n):
+    """(ds, es) are the directives and malformed-directive errors of the first n comments of the tree: one directive per
+    noqa comment, in file order, each on the line of its comment; one error per malformed one"""
+    cs = comments_of(tree)
+    c1 = len(ds) == seg_count(tree, 1, n) and len(es) == seg_count(tree, 2, n)
+    c2 = all(implies(seg_kind(cs[i]) == 1, seg_directive(ds[seg_count(tree, 1, i)], cs[i], m)) for i in range(0, n))
+    c3 = all(implies(seg_kind(cs[i]) == 2, seg_directive(es[seg_count(tree, 2, i)], cs[i], m)) for i in range(0, n))
+    return c1 and c2 and c3
+
+
+@contract("sqlfluff.core.rules.noqa:IgnoreMask.from_tree", PROP)
+class from_tree:
+    types = {"cls": _IgnoreMaskCls, "tree": BaseSegment, "reference_map": RefMap, "ignore_buff": TList(NoQaDirective),
+             "violations": TList(SQLBaseError), "ignore_entry": Entry}
+    ret = TTuple(IgnoreMask, TList(SQLBaseError))
+    modifies = ["heap:object.segment"]
+    opts = {"refute_free_native_str": True, "timeout_ms": 8000, "max_unknown": 3}
+
+    def ensures(tree, reference_map, result):
+        return tree_mask(result[0]._ignore_list, result[1], tree, reference_map, len(comments_of(tree)))
+
+    def inv_1(tree, reference_map, ignore_buff, violations, _i):
+        return tree_mask(ignore_buff, violations, tree, reference_map, _i)
 
 
 # ================================================================== bounded companions (labelled; not proofs)
